@@ -117,9 +117,13 @@ pub fn genesis_verifier() -> GenesisVerifier {
 
 impl Run {
     pub async fn start(dir: std::path::PathBuf, rng: &mut ChaCha20Rng) -> StdResult<Run> {
+        Self::start_with_types(dir, rng, sim::all_types()).await
+    }
+
+    pub async fn start_with_types(dir: std::path::PathBuf, rng: &mut ChaCha20Rng, types: Vec<SignedEntityTypeDiscriminants>) -> StdResult<Run> {
         let n_signers = 3 + rnd::usize_below(rng, 4);
         let pp = ProtocolParameters { k: 3 + rnd::below(rng, 3), m: 60 + rnd::below(rng, 90), phi_f: 0.95 };
-        let cfg = SimConfig { data_dir: dir, protocol_parameters: pp.clone(), tx_step: 30, blocks_step: 15 * (1 + rnd::below(rng, 2)) };
+        let cfg = SimConfig { data_dir: dir, protocol_parameters: pp.clone(), tx_step: 30, blocks_step: 15 * (1 + rnd::below(rng, 2)), types };
         let start_epoch = 1 + rnd::below(rng, 3);
         let start = TimePoint {
             epoch: Epoch(start_epoch),
